@@ -154,54 +154,7 @@ func (c *Check) stickyEdgeFlags() {
 				}
 				n++
 				key := "sticky:" + fnName(f) + ":" + F
-				isWant := func(v ssa.Value) bool {
-					k, ok := v.(*ssa.Const)
-					return ok && k.Value != nil && constant.BoolVal(k.Value) == want
-				}
-				ok2 := isWant(st.Val)
-				how := fmt.Sprintf("constant %v", want)
-				if ph, isPhi := st.Val.(*ssa.Phi); isPhi && !ok2 {
-					// old || x  /  old && x : one edge is the sticky constant, selected by the old value
-					hasConst, byOld := false, false
-					onlyOld := true
-					for _, e := range ph.Edges {
-						if isWant(e) {
-							hasConst = true
-							continue
-						}
-						isOld := false
-						if ld, ok := e.(*ssa.UnOp); ok && ld.Op == token.MUL {
-							if fa2, ok := ld.X.(*ssa.FieldAddr); ok && fa2.Field == fa.Field && sameNode(fa2.X, fa.X) {
-								isOld = true
-							}
-						}
-						if !isOld {
-							onlyOld = false
-						}
-					}
-					if hasConst && onlyOld {
-						ok2 = true
-						how = "either the sticky constant or the edge's own previous value"
-					}
-					for _, pred := range ph.Block().Preds {
-						for d := pred; d != nil; d = d.Idom() {
-							if iff, ok := d.Instrs[len(d.Instrs)-1].(*ssa.If); ok {
-								if ld, ok := iff.Cond.(*ssa.UnOp); ok && ld.Op == token.MUL {
-									if fa2, ok := ld.X.(*ssa.FieldAddr); ok && fa2.Field == fa.Field && sameNode(fa2.X, fa.X) {
-										byOld = true
-									}
-								}
-							}
-							if d == ph.Block().Idom() {
-								break
-							}
-						}
-					}
-					if hasConst && byOld {
-						ok2 = true
-						how = "old value combined with the new contribution (short-circuit form keeps the sticky value)"
-					}
-				}
+				ok2, how := stickyValue(st.Val, fa, want)
 				if ok2 {
 					c.ok("C05-R7", key, p.relFile(st.Pos()), fmt.Sprintf("Edge.%s of an existing edge only moves to %v in %s", F, want, fnName(f)), how)
 				} else {
@@ -659,4 +612,58 @@ func (c *Check) keptSetUse() {
 	if n == 0 {
 		c.undecided("C05-R5", "kept:none", "", "no read of graph.Options.KeptNodes found")
 	}
+}
+
+// stickyValue: the value stored into the bool field at fa can only move the field to
+// `want` (never away from it): the constant itself, or a short-circuit combination of the
+// field's previous value with a new contribution (old || x for want == true, old && x for
+// want == false), recognised as a phi whose edges are the constant and either the old value
+// or anything selected by a test of the old value.
+func stickyValue(v ssa.Value, fa *ssa.FieldAddr, want bool) (bool, string) {
+	isWant := func(v ssa.Value) bool {
+		k, ok := v.(*ssa.Const)
+		return ok && k.Value != nil && k.Value.Kind() == constant.Bool && constant.BoolVal(k.Value) == want
+	}
+	if isWant(v) {
+		return true, fmt.Sprintf("constant %v", want)
+	}
+	ph, isPhi := v.(*ssa.Phi)
+	if !isPhi {
+		return false, ""
+	}
+	isOldLoad := func(e ssa.Value) bool {
+		if ld, ok := e.(*ssa.UnOp); ok && ld.Op == token.MUL {
+			if fa2, ok := ld.X.(*ssa.FieldAddr); ok && fa2.Field == fa.Field && sameNode(fa2.X, fa.X) {
+				return true
+			}
+		}
+		return false
+	}
+	hasConst, byOld, onlyOld := false, false, true
+	for _, e := range ph.Edges {
+		if isWant(e) {
+			hasConst = true
+			continue
+		}
+		if !isOldLoad(e) {
+			onlyOld = false
+		}
+	}
+	if hasConst && onlyOld {
+		return true, "either the sticky constant or the field's own previous value"
+	}
+	for _, pred := range ph.Block().Preds {
+		for d := pred; d != nil; d = d.Idom() {
+			if iff, ok := d.Instrs[len(d.Instrs)-1].(*ssa.If); ok && isOldLoad(iff.Cond) {
+				byOld = true
+			}
+			if d == ph.Block().Idom() {
+				break
+			}
+		}
+	}
+	if hasConst && byOld {
+		return true, "old value combined with the new contribution (short-circuit form keeps the sticky value)"
+	}
+	return false, ""
 }
